@@ -36,6 +36,7 @@ FIXTURE_EXPECT = {
 }
 
 
+
 def run_witnesses(prop):
     """-> (obs, info)"""
     prefixes = WITNESS_PROPS.get(prop)
